@@ -20,6 +20,13 @@ SWAPS = [("previous_sibling", "next_sibling"), ("next_sibling", "previous_siblin
          ("NodeEdge::Start", "NodeEdge::End"), ("NodeEdge::End", "NodeEdge::Start"), ("previous, next", "next, previous"),
          (" - 1", ""), ("wrapping_add(1)", "wrapping_add(0)"), ("head", "tail"), ("tail", "head"), (" || ", " && "), (" && ", " || "),
          ("None", "Some(self)"), ("true", "false"), ("false", "true")]
+# second operator set (AUTOMUT_SET=2): negations, and/or on Options, off-by-one, argument swaps, early returns
+SWAPS2 = [("if !", "if "), ("(!", "("), (".or(", ".and("), (".and(", ".or("), (" + 1", " - 1"), (" - 1", " + 1"), (" > ", " < "), (" < ", " > "),
+          (".is_some_and(", ".is_none_or("), ("Some(new)", "Some(self)"), ("Some(self)", "Some(new)"), ("previous", "next"), ("next", "previous"),
+          ("first", "last"), ("last", "first"), ("parent", "previous_sibling"), (".map(", ".and_then(|x| Some(x)).map("), ("return Err", "let _ = Err"),
+          ("Ok(())", "Err(NodeError::Removed)"), ("unwrap_or(false)", "unwrap_or(true)"), ("?;", ".ok();"), ("continue;", "break;"), ("break;", "continue;")]
+if os.environ.get("AUTOMUT_SET") == "2":
+    SWAPS = SWAPS2
 
 
 def code_lines(path):
